@@ -99,15 +99,15 @@ def run_transfer(rng, A, B, msgs, sched, msgs_back=None):
                 pr.proc(rng.randint(0, 1))
         if tick and (sched in ('rr', 'one') or rng.random() < 0.5):
             d = rng.choice([tick, tick, tick // 2, 0]) if sched == 'random' else tick
-            # "both are processed regularly": never let more than 400 ms pass without delivering and processing
+            # "both are processed regularly": a frame needs up to four hops (flow control out, peer pass, data frame back, own
+            # pass - two when a flow control sits in front of it) inside one 1000 ms deadline: never let more than 150 ms of
+            # virtual time pass without three full delivery/processing rounds
             since += d
-            if since > 400 * 10**6:
-                for src in (0, 1):
-                    pr.deliver(src, len(pr.wire[src]))
-                pr.proc(0); pr.proc(1)
-                for src in (0, 1):
-                    pr.deliver(src, len(pr.wire[src]))
-                pr.proc(0); pr.proc(1)
+            if since > 150 * 10**6:
+                for _ in range(3):
+                    for src in (0, 1):
+                        pr.deliver(src, len(pr.wire[src]))
+                    pr.proc(0); pr.proc(1)
                 since = d
             pr.tick_all(d)
         if steps % 8 == 0 and pr.quiescent():
